@@ -264,6 +264,157 @@ func init() {
 		}
 		l.p("/-- `runPersistState` persists once more after its tick loop ended (the final persist) -/")
 		l.p("def finalPersistAfterLoop : Bool := %s", leanBool(finalPersist))
+
+		// --- fix c6aad9a: the final persist comes after `s.waitWg.Wait()`; workers are in waitWg, the persist job is not -----
+		waitBeforeFinal, persistJobInWaitWg, workerInWaitWg := false, false, false
+		wgCall := func(n ast.Node, wg, method string) bool {
+			found := false
+			ast.Inspect(n, func(m ast.Node) bool {
+				if c, ok := m.(*ast.CallExpr); ok {
+					if se, ok := c.Fun.(*ast.SelectorExpr); ok && se.Sel.Name == method {
+						if inner, ok := se.X.(*ast.SelectorExpr); ok && inner.Sel.Name == wg {
+							found = true
+						}
+					}
+				}
+				return true
+			})
+			return found
+		}
+		if fd := funcDecl(sf, "Scanner", "runPersistState"); fd != nil {
+			if wgCall(fd.Body, "waitWg", "Add") || wgCall(fd.Body, "waitWg", "Done") {
+				persistJobInWaitWg = true
+			}
+			ast.Inspect(fd.Body, func(n ast.Node) bool {
+				fl, ok := n.(*ast.FuncLit)
+				if !ok {
+					return true
+				}
+				seenLoop, seenWait := false, false
+				for _, st := range fl.Body.List {
+					if _, ok := st.(*ast.ForStmt); ok {
+						seenLoop = true
+						continue
+					}
+					if !seenLoop {
+						continue
+					}
+					if wgCall(st, "waitWg", "Wait") {
+						seenWait = true
+						continue
+					}
+					isPersist := false
+					ast.Inspect(st, func(m ast.Node) bool {
+						if c, ok := m.(*ast.CallExpr); ok {
+							if se, ok := c.Fun.(*ast.SelectorExpr); ok && se.Sel.Name == "persistState" {
+								isPersist = true
+							}
+						}
+						return true
+					})
+					if isPersist {
+						waitBeforeFinal = seenWait
+						break
+					}
+				}
+				return false
+			})
+		}
+		if fd := funcDecl(sf, "Scanner", "runWorker"); fd != nil {
+			// `s.waitWg.Add(1)` before the goroutine, `s.waitWg.Done()` after `w.run` inside it
+			addOutside := false
+			for _, st := range fd.Body.List {
+				if _, isGo := st.(*ast.GoStmt); !isGo && wgCall(st, "waitWg", "Add") {
+					addOutside = true
+				}
+				if gs, isGo := st.(*ast.GoStmt); isGo {
+					if fl, ok := gs.Call.Fun.(*ast.FuncLit); ok {
+						ranAt, doneAt := -1, -1
+						for i, b := range fl.Body.List {
+							ast.Inspect(b, func(m ast.Node) bool {
+								if c, ok := m.(*ast.CallExpr); ok {
+									if se, ok := c.Fun.(*ast.SelectorExpr); ok && se.Sel.Name == "run" && ranAt < 0 {
+										ranAt = i
+									}
+								}
+								return true
+							})
+							if wgCall(b, "waitWg", "Done") {
+								doneAt = i
+							}
+						}
+						workerInWaitWg = addOutside && ranAt >= 0 && doneAt > ranAt
+					}
+				}
+			}
+		} else {
+			problem("scanner.Scanner.runWorker not found")
+		}
+		l.p("/-- the final persist of `runPersistState` comes after `s.waitWg.Wait()`; every worker goroutine is in `waitWg`")
+		l.p("(Add before `go`, Done after `w.run` returned) and the persist job itself is not (fix c6aad9a) -/")
+		l.p("def finalPersistAfterWorkersWait : Bool := %s", leanBool(waitBeforeFinal && workerInWaitWg && !persistJobInWaitWg))
+
+		// --- fix f247e22: mergeDescs reads the offset once and stats again when it is beyond the scanned size ----------------
+		restat := false
+		if fd := funcDecl(sf, "Scanner", "mergeDescs"); fd != nil {
+			ast.Inspect(fd.Body, func(n ast.Node) bool {
+				rs, ok := n.(*ast.RangeStmt)
+				if !ok || restat {
+					return true
+				}
+				offAt, statAt, condAt := -1, -1, -1
+				getOffsetCalls := 0
+				ast.Inspect(rs.Body, func(m ast.Node) bool {
+					if c, ok := m.(*ast.CallExpr); ok {
+						if se, ok := c.Fun.(*ast.SelectorExpr); ok && se.Sel.Name == "getOffset" {
+							getOffsetCalls++
+						}
+					}
+					return true
+				})
+				usesIdent := func(n ast.Node, name string) bool {
+					found := false
+					ast.Inspect(n, func(m ast.Node) bool {
+						if id, ok := m.(*ast.Ident); ok && id.Name == name {
+							found = true
+						}
+						return true
+					})
+					return found
+				}
+				for i, st := range rs.Body.List {
+					if as, ok := st.(*ast.AssignStmt); ok && len(as.Lhs) == 1 && offAt < 0 {
+						if id, ok := as.Lhs[0].(*ast.Ident); ok && id.Name == "off" {
+							offAt = i
+						}
+					}
+					if ifs, ok := st.(*ast.IfStmt); ok {
+						callsStat := false
+						ast.Inspect(ifs.Body, func(m ast.Node) bool {
+							if c, ok := m.(*ast.CallExpr); ok {
+								if se, ok := c.Fun.(*ast.SelectorExpr); ok && se.Sel.Name == "Stat" {
+									callsStat = true
+								}
+							}
+							return true
+						})
+						if callsStat && usesIdent(ifs.Cond, "off") && statAt < 0 {
+							statAt = i
+						}
+						if !callsStat && usesIdent(ifs.Cond, "off") && usesIdent(ifs.Cond, "LastSeenSize") && statAt >= 0 && condAt < 0 {
+							condAt = i
+						}
+					}
+				}
+				restat = offAt >= 0 && statAt > offAt && condAt > statAt && getOffsetCalls == 1
+				return true
+			})
+		} else {
+			problem("scanner.Scanner.mergeDescs not found")
+		}
+		l.p("/-- `mergeDescs` reads the live offset once into a local, stats the file again when that offset is beyond the")
+		l.p("scanned size, and decides with the local (fix f247e22) -/")
+		l.p("def mergeRestatsAfterOffset : Bool := %s", leanBool(restat))
 		l.write()
 	}
 }
